@@ -43,6 +43,57 @@ func c17EvalGuid(c *Ctx, cs Case) {
 	fail := func(what, goObs, spec string) {
 		c.Fail(Failure{Kind: "property", What: what, Case: cs, Go: goObs, Spec: spec})
 	}
+	// "without loss" also means: a result the caller still holds keeps its value while the library
+	// converts other GUIDs, and what the caller does to a result does not leak into later conversions
+	beHeld, backHeld, backUpHeld, fromBEHeld := append([]byte{}, be...), *back, *backUp, *fromBE
+	others := []util.EFIGUID{
+		{Data1: ^g.Data1, Data2: ^g.Data2, Data3: ^g.Data3},
+		{Data1: g.Data1<<8 | g.Data1>>24, Data2: g.Data3, Data3: g.Data2, Data4: [8]byte{g.Data4[7], g.Data4[0], g.Data4[1], g.Data4[2], g.Data4[3], g.Data4[4], g.Data4[5], g.Data4[6]}},
+	}
+	for i := range g.Data4 {
+		others[0].Data4[i] = ^g.Data4[i]
+	}
+	for rep := 0; rep < 2; rep++ {
+		for i := range others {
+			h := others[i]
+			hb := util.GUIDToBytes(&h)
+			hb2 := h.Bytes()
+			ht := h.Format()
+			util.StringToGUID(ht)
+			util.StringToGUID(strings.ToUpper(ht))
+			util.BytesToGUID(hb)
+			util.BytesToGUID(hb2)
+		}
+	}
+	if !bytes.Equal(be, beHeld) {
+		fail("the byte form returned for a GUID changed while other GUIDs were converted (the result shares memory with later calls)", hx(be), hx(beHeld))
+	}
+	if *back != backHeld || *backUp != backUpHeld {
+		fail("the GUID returned by StringToGUID changed while other GUIDs were converted", guidStr(*back)+" / "+guidStr(*backUp), guidStr(backHeld))
+	}
+	if *fromBE != fromBEHeld {
+		fail("the GUID returned by BytesToGUID changed while other GUIDs were converted", guidStr(*fromBE), guidStr(fromBEHeld))
+	}
+	for i := range be { // the caller overwrites what it was given ...
+		be[i] ^= 0xa5
+	}
+	*back, *backUp, *fromBE = others[0], others[1], others[0]
+	if again := util.GUIDToBytes(&g); !bytes.Equal(again, beHeld) { // ... and converts the same GUID again
+		fail("GUIDToBytes(g) returns something else after the caller overwrote the result of an earlier call", hx(again), hx(beHeld))
+	}
+	if again := g.Bytes(); !bytes.Equal(again, beHeld) {
+		fail("g.Bytes() returns something else after the caller overwrote the result of an earlier call", hx(again), hx(beHeld))
+	}
+	if again := util.StringToGUID(text); *again != backHeld {
+		fail("StringToGUID(text) returns something else after the caller overwrote the result of an earlier call", guidStr(*again), guidStr(backHeld))
+	}
+	if again := util.BytesToGUID(beHeld); *again != fromBEHeld {
+		fail("BytesToGUID(bytes) returns something else after the caller overwrote the result of an earlier call", guidStr(*again), guidStr(fromBEHeld))
+	}
+	if again := g.Format(); again != text {
+		fail("Format(g) is not repeatable", again, text)
+	}
+	be, back, backUp, fromBE = beHeld, &backHeld, &backUpHeld, &fromBEHeld // judged below as they were returned
 	if !canonGUID.MatchString(text) {
 		fail("Format is not the canonical 36-character lower-case text", text, canonGUID.String())
 	} else {
@@ -173,6 +224,23 @@ func c17EvalString(c *Ctx, cs Case) {
 	if want := specUtf16(s); !bytes.Equal(enc, want) {
 		c.Fail(Failure{Kind: "property", What: "MarshalUtf16Var is not UTF-16LE plus one NUL terminator", Case: cs, Go: hx(enc), Spec: hx(want)})
 	}
+	// the encoding that was returned keeps its value while other strings are encoded and decoded, and
+	// overwriting it does not change what encoding the same string returns next time
+	encHeld := append([]byte{}, enc...)
+	for _, o := range []string{"x" + s, strings.ToUpper(s) + "\u00e9\U0001F600", s} {
+		oe := util.MarshalUtf16Var(o)
+		safely(func() { util.ParseUtf16Var(bytes.NewBuffer(oe)) })
+	}
+	if !bytes.Equal(enc, encHeld) {
+		c.Fail(Failure{Kind: "property", What: "the encoding returned for a string changed while other strings were converted (the result shares memory with later calls)", Case: cs, Go: hx(enc), Spec: hx(encHeld)})
+	}
+	for i := range enc {
+		enc[i] ^= 0xa5
+	}
+	if again := util.MarshalUtf16Var(s); !bytes.Equal(again, encHeld) {
+		c.Fail(Failure{Kind: "property", What: "MarshalUtf16Var(s) returns something else after the caller overwrote the result of an earlier call", Case: cs, Go: hx(again), Spec: hx(encHeld)})
+	}
+	enc = encHeld
 	var dec string
 	var err error
 	if p, msg := safely(func() { dec, err = util.ParseUtf16Var(bytes.NewBuffer(append([]byte{}, enc...))) }); p {
@@ -391,7 +459,7 @@ func c17Gen(c *Ctx) {
 
 func init() {
 	register("C17", &PropDef{
-		Rule:   "GUIDs: boundary patterns (each field 0/1/all-ones/single bits, a zero nibble at every text position) then random 128-bit values; strings: edge code points, BOM, transformer-buffer-straddling lengths, then random NUL-free scalar sequences; arbitrary texts and byte strings for the decoders. A case is non-trivial if it is not the all-zero GUID / the empty string; distinct = distinct case encodings.",
+		Rule:   "GUIDs: boundary patterns (each field 0/1/all-ones/single bits, a zero nibble at every text position) then random 128-bit values; strings: edge code points, BOM, transformer-buffer-straddling lengths, then random NUL-free scalar sequences; arbitrary texts and byte strings for the decoders. Every GUID / string case is a two-step sequence: the results of the first conversions are held while two other GUIDs (the complement and a rotation) / three other strings go through every conversion twice, must then still have their value, are then overwritten by the caller, and the same conversions are repeated and must return what they returned first. A case is non-trivial if it is not the all-zero GUID / the empty string; distinct = distinct case encodings.",
 		Assume: []string{"Go strings handed to MarshalUtf16Var are valid UTF-8 (the property quantifies over valid Unicode strings)"},
 		Eval:   c17Eval,
 		Gen:    c17Gen,
